@@ -621,7 +621,7 @@ fn mutate<Q: Pair>(rng: &mut Rng, case: &Case<Q>) -> Option<Mutation> {
                 4 => (v.wrapping_add(rng.range(2, 17)), "len-plus-small"),
                 5 => (v.wrapping_add(256), "len-plus-256"),
                 6 => (rng.below(v.saturating_add(64).max(1)), "len-random-small"),
-                7 => (rng.range(1 << 12, RESERVE_CAP.min(max)), "len-large"),
+                7 => (rng.range(1 << 12, (RESERVE_CAP >> 4).min(max)), "len-large"),
                 8 => (rng.below(case.stream.len() as u64 + 2), "len-within-stream"),
                 // Values next to the top of the range: arithmetic on them must not wrap or panic.
                 _ => (*rng.pick(&[max, max - 7, max - 8, max - 16, (max >> 1) + 1, (max >> 1) + 10]), "len-huge"),
@@ -836,8 +836,10 @@ fn main() {
     }
     let probe_target = s.args.extra.get("probe-pair").cloned();
     let probe_value = s.args.extra_u64("probe-value").unwrap_or(1 << 40);
-    let rt_cases = s.args.budget(220, 9_000);
-    let mut_cases = s.args.budget(1_500, 60_000);
+    let rt_cases = s.args.budget(220, 7_000);
+    let mut_cases = s.args.budget(1_500, 50_000);
+    // `--only <substring>`: restrict to the pairs whose name contains it (sharding Miri runs).
+    let only = s.args.extra.get("only").cloned();
     let mut probes: Vec<Probe> = Vec::new();
     // Miri with Stacked Borrows (its default) rejects `nom_locate::LocatedSpan::get_utf8_column`
     // (nom_locate 4.2.0 rebuilds the consumed prefix from a pointer into an empty remainder), which
@@ -858,20 +860,21 @@ fn main() {
                 if *t == name {
                     probe_child::<$q>(probe_value);
                 }
+            } else if only.as_ref().map_or(false, |o| !name.contains(o.as_str())) {
             } else if skip_recon_decoders && <$q as Pair>::recon_decoder() {
                 skipped.push(name);
             } else {
                 probes.push(Probe { pair: name.clone(), reserves: <$q as Pair>::reserve_guard(&[0xffu8; 64]).is_some() });
                 s.part(
                     &format!("rt:{name}"),
-                    "1-6 generated messages encoded into one buffer by the real encoder, decoded unsplit, at every single split point (streams > 2 KiB: every position next to a field/frame boundary + 160 sampled), one byte per read, 8 random multi-splits, 4 truncations + decode_eof; non-trivial when the stream has at least one split point; distinct by the encoded stream",
+                    "1-6 generated messages encoded into one buffer by the real encoder, decoded unsplit, at every single split point (streams > 2 KiB: every position next to a field/frame boundary + 160 sampled), one byte per read (streams <= 3000 bytes), 8 random multi-splits, 4 truncations + decode_eof; oracle: same messages in order, consumed bytes = frame end after each message, every message delivered once its last byte is fed, empty buffer and decode_eof = None at the end, no message out of a truncated frame; non-trivial when the stream has at least one split point; distinct by the encoded stream (under Miri: tiny messages, <= 12 split points)",
                     false,
                     rt_cases,
                     |i, rng, out| rt_case::<$q>(i, rng, out),
                 );
                 s.part(
                     &format!("mut:{name}"),
-                    "one tag or length prefix of a valid 1-4 message stream overwritten / a byte inserted or deleted in it, decoded unsplit and under a random multi-split, then decode_eof; non-trivial when the mutation changed the stream; distinct by the mutated stream",
+                    "one tag or length prefix of a valid 1-4 message stream overwritten / a bit flipped / a byte inserted or deleted in it, decoded unsplit and under a random multi-split, then decode_eof; oracle: no panic, no message from zero bytes, and (unsplit run) every returned message re-encodes to exactly the bytes consumed (raw codecs) or ends where the length prefixes present say and has a valid header (typed codecs); Err and waiting for more bytes are always accepted; non-trivial when the mutation changed the stream; distinct by the mutated stream",
                     false,
                     mut_cases,
                     |i, rng, out| mut_case::<$q>(i, rng, out),
